@@ -46,6 +46,7 @@ def cases(tier, seed):
         for m, corr, train in itertools.product([1, 3, 5], [True, False], [True, False]):
             yield {"kind": "nystrom", "m": m, "correction": corr, "training": train, "seed": rnd.randrange(10**6)}
             yield {"kind": "nystrom", "m": m, "correction": corr, "training": train, "z_at_x": True, "seed": rnd.randrange(10**6)}
+            yield {"kind": "nystrom", "m": m, "correction": corr, "training": train, "beyond_cholesky_size": True, "copy_check": True, "seed": rnd.randrange(10**6)}
         for D_ in (4, 16):
             yield {"kind": "rff", "num_samples": D_, "seed": rnd.randrange(10**6)}
         for model, chol, fpv, corr, tz in itertools.product(["kiss1d", "kiss2d", "sgpr", "rff"], [800, 0], [False, True], [True, False], [True, False]):
@@ -324,9 +325,29 @@ def _nystrom(case, ctx, g):
     for j in (jit, 0.0):
         Ki = torch.linalg.inv(Kzz + j * torch.eye(case["m"]))
         refs.append((Kxz @ Ki @ Kxz.T, Kxz @ Ki @ K2z.T))
-    with S.sgpr_diagonal_correction(case["correction"]), torch.no_grad():
+    import contextlib
+
+    with contextlib.ExitStack() as st_:
+        if case.get("beyond_cholesky_size"):
+            # more inducing points than max_cholesky_size, tiny Lanczos rank: K_ZZ^-1/2 is still the exact (Cholesky) factor
+            st_.enter_context(S.max_cholesky_size(0))
+            st_.enter_context(S.max_root_decomposition_size(2))
+        st_.enter_context(S.sgpr_diagonal_correction(case["correction"]))
+        st_.enter_context(torch.no_grad())
         gxx = ipk(X).to_dense()
         gx2 = ipk(X, X2).to_dense() if not case["training"] else None
+    # a deep copy is a kernel of its own: moving ITS inducing points / parameters leaves the original's matrix alone
+    if case.get("copy_check"):
+        import copy
+
+        with torch.no_grad(), S.sgpr_diagonal_correction(case["correction"]):
+            cp = copy.deepcopy(ipk)
+            cp.inducing_points.add_(0.5)
+            for p_ in cp.base_kernel.parameters():
+                p_.add_(0.3)
+            again = ipk(X).to_dense()
+        ctx.close("nystrom", again, gxx, (1e-12, 1e-12), cls="nystrom:original_after_its_copy_moved")
+        ctx.expect("nystrom", bool(torch.equal(ipk.inducing_points.detach(), Zc)), "the original's inducing points moved with its deep copy's")
     corr = case["correction"] and not case["training"]
     def add_corr(Q):
         return Q + torch.diag((torch.diagonal(_eager(bk, X, X)) - torch.diagonal(Q)).clamp_min(0)) if corr else Q
